@@ -37,6 +37,7 @@ ERRNOS = {
     "EROFS": _errno.EROFS,
     "ENOTDIR": _errno.ENOTDIR,
     "EFBIG": _errno.EFBIG,
+    "EDQUOT": _errno.EDQUOT,
 }
 
 _TRUE = {
@@ -44,6 +45,7 @@ _TRUE = {
     "mkdir": os.mkdir, "open": builtins.open, "datetime": _datetime_mod.datetime, "date": _datetime_mod.date, "Popen": _subprocess_mod.Popen,
     "time": _time_mod.time, "localtime": _time_mod.localtime, "gmtime": _time_mod.gmtime, "strftime": _time_mod.strftime,
     "readlink": os.readlink, "which": shutil.which, "os_write": os.write, "isatty": os.isatty, "fsync": os.fsync, "getpid": os.getpid,
+    "dup": os.dup, "close": os.close,
 }
 
 DEFAULT_STEP_BUDGET = 2_000_000
@@ -169,6 +171,11 @@ class SimRawStdout(io.RawIOBase):
         self.calls = 0
         self.pending_error = None  # errno name armed for the next call
         self.dead = None  # persistent errno name
+        # A device with a write-back cache (NFS, quota'd cluster file systems): from some byte on
+        # write(2) keeps succeeding into the cache, the server refuses the data later, and the
+        # error is reported by the next close(2) / fsync(2) on the file - to whoever asks.
+        self.deferred = None  # errno name; data from then on is not durable
+        self.deferred_reported = False
 
     def writable(self):
         return True
@@ -199,6 +206,8 @@ class SimRawStdout(io.RawIOBase):
             if name == "EAGAIN":
                 return None
             raise _oserror(name)
+        if self.deferred:
+            return len(data)  # accepted into the cache; it will never reach the file
         pos = len(self.accepted)
         end = pos + len(data)
         for fault in sim.write_faults:
@@ -213,6 +222,11 @@ class SimRawStdout(io.RawIOBase):
                 self.accepted += data[:k]
                 sim.deliver(fault, at=pos, accepted=k, of=len(data))
                 return k
+            if fault["kind"] == "deferred":
+                self.accepted += data[: at - pos]
+                self.deferred = fault.get("errno") or "EDQUOT"
+                sim.deliver(dict(fault, stage="accepted into the write-back cache; refused later"), at=pos, durable=at - pos, of=len(data))
+                return len(data)
             # error kinds
             persistent = bool(fault.get("persistent", True))
             if at > pos:
@@ -236,12 +250,48 @@ class SimRawStdout(io.RawIOBase):
         return len(data)
 
 
-class _Fd1Proxy(io.RawIOBase):
-    """Another descriptor-level handle on the simulated fd 1 (closing it does not close the device)."""
+def _sim_raw_descriptor_closed(self, how="close"):
+    """close(2) / fsync(2) on a descriptor of the simulated file: reports a pending write-back
+    error once."""
+    self.sim.syscall()
+    if self.deferred and not self.deferred_reported:
+        self.deferred_reported = True
+        self.sim.log("writeback_error_reported", at=how, kind=self.deferred)
+        self.sim.probe("writeback_error_reported_at_" + how)
+        raise _oserror(self.deferred)
 
-    def __init__(self, raw):
+
+SimRawStdout.descriptor_closed = _sim_raw_descriptor_closed
+
+
+def _sim_raw_close(self):
+    if self.closed:
+        return
+    io.RawIOBase.close(self)
+    self.descriptor_closed()
+
+
+SimRawStdout.close = _sim_raw_close
+
+
+class _Fd1Proxy(io.RawIOBase):
+    """Another descriptor-level handle on the simulated fd 1 (closing it does not close the device).
+    With `owns_fd` it stands for a descriptor of its own (a dup of fd 1, or fd 1 opened with
+    closefd=True): closing it is a close(2) on the file, which is when a write-back error comes out."""
+
+    def __init__(self, raw, owns_fd=False):
         super().__init__()
         self._raw = raw
+        self._owns_fd = owns_fd
+
+    def close(self):
+        if self.closed:
+            return
+        try:
+            super().close()
+        finally:
+            if self._owns_fd:
+                self._raw.descriptor_closed()
 
     def writable(self):
         return True
@@ -714,6 +764,8 @@ class Sim:
         if faults and twin is None:
             raise ValueError("a faulty plan needs the fault-free twin's footprint")
         self.bufsize = int(plan["env"].get("stdout_bufsize", 4096))
+        self.fd1_dups = set()  # fake descriptor numbers handed out by the dup() seam
+        self._next_fake_fd = 1000
         # the locale's text encoding: what open() without an encoding argument, sys.stdout and
         # text-mode pipes use (UTF-8 almost everywhere; cp1252 on Windows, ISO-8859-x on legacy
         # set-ups, ASCII in a C locale with the UTF-8 coercion switched off)
@@ -1039,11 +1091,14 @@ class Sim:
     # -- files ---------------------------------------------------------------------------------
     def sim_open(self, file, mode="r", *a, **kw):
         if isinstance(file, int):
-            if file == 1 and any(c in mode for c in "wa") and self.raw_stdout is not None:
-                # a second handle on fd 1 (open(sys.stdout.fileno(), "wb", buffering=0, closefd=False)
-                # and the like): it leads to the simulated device too
-                self.log("open_fd1", mode=mode)
-                proxy = _Fd1Proxy(self.raw_stdout)
+            if self.is_fd1(file) and any(c in mode for c in "wa") and self.raw_stdout is not None:
+                # a second handle on fd 1 (open(sys.stdout.fileno(), "wb", buffering=0, closefd=False),
+                # open(os.dup(1), "w") and the like): it leads to the simulated device too
+                closefd = kw.get("closefd", a[4] if len(a) > 4 else True)
+                self.log("open_fd1", mode=mode, fd="1" if file == 1 else "dup", closefd=bool(closefd))
+                proxy = _Fd1Proxy(self.raw_stdout, owns_fd=bool(closefd))
+                if closefd and file in self.fd1_dups:
+                    self.fd1_dups.discard(file)  # the file object owns the descriptor now
                 buffering = kw.get("buffering", a[0] if a else -1)
                 if "b" in mode:
                     return proxy if buffering == 0 else io.BufferedWriter(proxy, self.bufsize if buffering in (-1, 1) else buffering)
@@ -1173,6 +1228,40 @@ class Sim:
             return buf
         enc = kw.get("encoding") or (a[1] if len(a) > 1 else None) or self.encoding
         return io.TextIOWrapper(buf, encoding=enc, errors=kw.get("errors"), newline=kw.get("newline"), line_buffering=(buffering == 1))
+
+    # -- descriptors that lead to the simulated standard output ----------------------------------
+    def is_fd1(self, fd):
+        return fd == 1 or fd in self.fd1_dups
+
+    def sim_dup(self, fd, *a, **kw):
+        if self.is_fd1(fd):
+            self.syscall()
+            self._next_fake_fd += 1
+            new = self._next_fake_fd
+            self.fd1_dups.add(new)
+            self.log("dup_fd1", new="dup")
+            return new
+        return _TRUE["dup"](fd, *a, **kw)
+
+    def sim_close(self, fd):
+        if fd in self.fd1_dups:
+            self.fd1_dups.discard(fd)
+            self.log("close_fd1_dup")
+            if self.raw_stdout is not None:
+                self.raw_stdout.descriptor_closed()
+            return None
+        if fd == 1 and self.raw_stdout is not None:
+            self.log("close_fd1")
+            self.raw_stdout.descriptor_closed()
+            return None
+        return _TRUE["close"](fd)
+
+    def sim_fsync(self, fd):
+        if self.is_fd1(fd) and self.raw_stdout is not None:
+            self.log("fsync_fd1")
+            self.raw_stdout.descriptor_closed(how="fsync")
+            return None
+        return _TRUE["fsync"](fd)
 
     def sim_replace(self, src, dst, *a, **kw):
         s_ap, d_ap = self.abspath(src), self.abspath(dst)
@@ -1307,6 +1396,7 @@ class Sim:
             "gmtime": _time_mod.gmtime,
             "strftime": _time_mod.strftime,
             "dunder_stdout": sys.__stdout__,
+            "dunder_stderr": sys.__stderr__,
             "os_write": os.write,
             "which": shutil.which,
             "getpid": os.getpid,
@@ -1315,6 +1405,8 @@ class Sim:
             "readlink": os.readlink,
             "isatty": os.isatty,
             "fsync": os.fsync,
+            "dup": os.dup,
+            "close": os.close,
             "getpreferredencoding": _locale_mod.getpreferredencoding,
             "getencoding": getattr(_locale_mod, "getencoding", None),
         }
@@ -1420,7 +1512,10 @@ class Sim:
             os.chdir(self.repo)
             sys.argv = argv
             sys.stdout = out
-            sys.stderr = err
+            # fd 2 closed when the process started (`2>&-`): CPython sets sys.stderr (and
+            # sys.__stderr__) to None; print(..., file=None) then means sys.stdout
+            sys.stderr = None if env.get("stderr_closed") else err
+            sys.__stderr__ = sys.stderr
             os.listdir = self.sim_listdir
             os.scandir = self.sim_scandir
             os.stat = self.sim_stat
@@ -1455,7 +1550,7 @@ class Sim:
             sys.__stdout__ = out
 
             def sim_os_write(fd, data):
-                if fd == 1:
+                if sim.is_fd1(fd):
                     n = raw.write(data)
                     if n is None:  # EAGAIN: os.write raises where io.FileIO.write returns None
                         raise BlockingIOError(_errno.EAGAIN, os.strerror(_errno.EAGAIN))
@@ -1484,8 +1579,10 @@ class Sim:
                 sim.cwd = new
 
             os.chdir = sim_chdir
-            os.isatty = lambda fd: (mode == "line") if fd == 1 else _TRUE["isatty"](fd)
-            os.fsync = lambda fd: None if fd == 1 else _TRUE["fsync"](fd)
+            os.isatty = lambda fd: (mode == "line") if sim.is_fd1(fd) else _TRUE["isatty"](fd)
+            os.fsync = self.sim_fsync
+            os.dup = self.sim_dup
+            os.close = self.sim_close
             _locale_mod.getpreferredencoding = lambda do_setlocale=True: sim.encoding
             if saved["getencoding"] is not None:
                 _locale_mod.getencoding = lambda: sim.encoding
@@ -1552,6 +1649,7 @@ class Sim:
             _time_mod.gmtime = saved["gmtime"]
             _time_mod.strftime = saved["strftime"]
             sys.__stdout__ = saved["dunder_stdout"]
+            sys.__stderr__ = saved["dunder_stderr"]
             os.write = saved["os_write"]
             shutil.which = saved["which"]
             os.getpid = saved["getpid"]
@@ -1559,6 +1657,8 @@ class Sim:
             os.chdir = saved["chdir"]
             os.isatty = saved["isatty"]
             os.fsync = saved["fsync"]
+            os.dup = saved["dup"]
+            os.close = saved["close"]
             _locale_mod.getpreferredencoding = saved["getpreferredencoding"]
             if saved["getencoding"] is not None:
                 _locale_mod.getencoding = saved["getencoding"]
